@@ -17,7 +17,7 @@ from .c12 import mutate_tree
 
 LEVEL = "exploration"
 SHARDS = {"quick": 1, "thorough": 16}
-REQUIRED = ("repacks_after_failed_pack_of_another_packet", "position_sweep_trees", "repacks_after_assignment", "packs_compared_with_reference_encoding", "reparse_compared", "assert_consistency_true", "insert_traces_compared",
+REQUIRED = ("repacks_after_changing_a_tracked_field", "repacks_after_failed_pack_of_another_packet", "position_sweep_trees", "repacks_after_assignment", "packs_compared_with_reference_encoding", "reparse_compared", "assert_consistency_true", "insert_traces_compared",
             "families_with_a_shared_options_table", "built_by_kwargs", "built_by_attrs", "built_by_mixed", "built_by_inplace", "nested_trees", "boundary_int_values", "empty_lists", "absent_optionals",
             "f2_probe_runs")
 MIN_NONTRIVIAL = 150
@@ -229,6 +229,47 @@ def judge_tree(run, bench, pv, rng, mon):
                                        packed=b2j(r3.pkt) if r3.status == "ok" else str(r3.err)[:200], reference=b2j(er3.data)), None)
                     break
                 setattr(obj, path[-1], old)
+    # automatic (described) fields left to compute themselves: built without them, serialized, the tracked field replaced by a
+    # value of another length, serialized again - the second serialization carries the new length
+    root = fam["decls"][fam["root"]]
+    autos = [f for f in root["fields"] if f.get("describe", {}).get("k") in ("autolength", "alias") and f["describe"].get("impl", "autolength") == "autolength"]
+    if autos:
+        for v in ("g", "d"):
+            try:
+                pkt = monitors.build_packet(bench.loaded, v, model.strip_described(fam, model.copy_val(pv)), "kwargs")
+            except Exception:
+                run.count("auto_build_failed")
+                continue
+            r1 = harness.lib_pack(pkt)
+            run.count("packs_with_automatic_fields_left_to_compute")
+            witness = {"source": driver.src_of(bench, v), "variant": v, "values": pv.to_json(), "fam": fam, "how": "kwargs without the automatic fields"}
+            if r1.status != "ok" or r1.pkt != want:
+                run.violation("pack() of a packet whose automatic fields were left to compute is not the encoding of its values",
+                              dict(witness, packed=b2j(r1.pkt) if r1.status == "ok" else str(r1.err)[:200], reference=b2j(want)), None)
+                return
+            f = autos[0]
+            tracked = f["describe"]["of"]
+            old = pv.vals.get(tracked)
+            if not isinstance(old, bytes):
+                continue
+            newv = old + b"zq" if len(old) < 3 else old[:-1]
+            m = model.copy_val(pv)
+            m.vals[tracked] = newv
+            m.vals[f["name"]] = len(newv)
+            st5, er5 = harness.model_encode(fam, m)
+            if st5 != "ok":
+                continue
+            st6, mr6 = harness.model_parse(fam, er5.data, 0)
+            if st6 != "ok" or mr6.value != m:
+                continue
+            setattr(pkt, tracked, newv)
+            r2 = harness.lib_pack(pkt)
+            run.count("repacks_after_changing_a_tracked_field")
+            if r2.status != "ok" or r2.pkt != er5.data:
+                run.violation("after a first pack(), replacing the field an automatic length tracks and packing again does not give the encoding of "
+                              "the new values", dict(witness, tracked=tracked, new_value=b2j(newv),
+                                                     packed=b2j(r2.pkt) if r2.status == "ok" else str(r2.err)[:200], reference=b2j(er5.data)), None)
+                return
 
 
 def f2_probe(run):
@@ -253,7 +294,7 @@ def run(run):
     shard, nshards = run.shard
     rng = rng_for(run.seed, "c02", shard)
     nfam = 300 if run.tier == "quick" else 1800
-    profile = {"allow_regex_nokeep_single": False, "p_move": 0.2, "p_backward_at": 0.3, "allow_raw_callbacks": False, "p_describe": 0.08}
+    profile = {"allow_regex_nokeep_single": False, "p_move": 0.2, "p_backward_at": 0.3, "allow_raw_callbacks": False, "p_describe": 0.12}
     if run.tier == "thorough":
         profile["max_depth"] = 4
     if shard == 0:
